@@ -13,6 +13,8 @@ import rules_hooks as RH
 import rules_contracts as RC
 import rules_entry as RE
 import rules_types as RT
+import rules_text as RX
+import rules_input as RI
 
 ASSUME_COMMON = [
     "rustc's type checker, MIR construction and drop elaboration (facts are read from the compiler, -Zmir-opt-level=0)",
@@ -42,6 +44,12 @@ STRUCT = {
     "AFFINE": RT.rule_affine,
     "ERR-SPAN": RT.rule_err_span,
     "ORDER-ARMS": RT.rule_order_arms,
+    "CHAR-SIB": RX.rule_char_sib,
+    "REGEX-ANCHOR": RX.rule_regex_anchor,
+    "READER-SIB": RI.rule_reader_sib,
+    "SPAN-PROV": RI.rule_span_prov,
+    "STREAM": RI.rule_stream,
+    "INPUT-MISC": RI.rule_input_misc,
 }
 
 # "K" = the contract automata that serve this property (spec/contract_map.py)
@@ -51,20 +59,21 @@ PROP_RULES = {
     "C03": ["ENTRY", "K"],
     "C04": ["MODE-PAIR", "MODE-PURE", "K", "D:POISON"],
     "C05": ["D:POISON", "D:KEEP", "D:LIFO", "HOOKS-SAVE-REWIND", "HOOKS-WRITERS", "MODE-PURE", "K"],
-    "C07": ["K"],
+    "C07": ["K", "SPAN-PROV", "READER-SIB", "INPUT-MISC"],
+    "C10": ["READER-SIB", "SPAN-PROV", "STREAM", "INPUT-MISC"],
     "C06": ["D:ALT-LINEAR", "D:ALT-POS", "D:PFAIL", "ORDER-ARMS", "ERR-SPAN", "K"],
     "C08": ["K", "D:POISON", "D:ALT-LINEAR", "D:PFAIL"],
     "C09": ["K", "D:POISON", "RECURSE", "AFFINE"],
     "C11": ["K", "D:ALT-LINEAR", "D:ALT-POS", "D:PFAIL", "MEMO-KEY"],
     "C12": ["RECURSE", "ONCE", "CLONE-FIELDS", "K"],
     "C13": ["FREEZE", "STATICS", "OWN-STATE", "CLONE-FIELDS", "K"],
-    "C14": ["K"],
+    "C14": ["CHAR-SIB", "REGEX-ANCHOR", "K", "HOOKS-TOKEN"],
     "C15": ["K", "SUB-INPUT"],
     "C16": ["K", "SUB-INPUT", "D:ALT-LINEAR", "D:PFAIL"],
     "C17": ["K", "D:ALT-LINEAR", "D:ALT-POS", "ERR-SPAN"],
     "C18": ["HOOKS-WRITERS", "HOOKS-TOKEN", "HOOKS-SAVE-REWIND", "SUB-INPUT", "D:POISON", "D:KEEP", "K"],
     "C19": ["UNSAFE-INV", "MAYBEUNINIT"],
-    "C20": ["D:PFAIL", "RECURSE", "K"],
+    "C20": ["D:PFAIL", "RECURSE", "INPUT-MISC", "K"],
 }
 
 # properties whose typestate disciplines are restricted to the bodies of their own contract groups
